@@ -7,6 +7,9 @@ def run(ctx):
     read_input(ctx, ['read.ignore_silent', 'read.recoverable_continues', 'read.panic_fails', 'read.stdout_reports', 'read.stderr_reports', 'read.clean_no_report', 'read.one_context_per_value', 'read.counters'])      # noise must not shift &index either
     n = 3 if ctx.quick else 4
     tokenizer(ctx, n, ['tok.garbage', 'tok.value', 'tok.consumed', 'tok.end'], f'full alphabet n={n}: a garbage byte costs exactly one byte and one recoverable error, whatever follows')
+    from ..scen_print import json_framing
+    from ..scen_text import text_layout
+    json_framing(ctx); text_layout(ctx)      # a row is written when it is processed: under --on-error panic what precedes the malformed byte is already out
     from ..scen_files import file_sources
     file_sources(ctx)         # file input is the whole file (nothing consumed before the tokenizer); a failing entry of a directory ends the run with an error
     from ..conform import conformance
